@@ -17,10 +17,62 @@ type sentence struct {
 	maxLen   int
 	recBias  float64 // probability of preferring the first alternatives (left-recursive chains)
 	steps    int
+	ruleCost map[string]int // length of the shortest derivation (in rule calls)
+}
+
+const infCost = 1000
+
+// cost is the number of nested rule calls the cheapest derivation of e needs.
+func (s *sentence) cost(e *pvcase.Expr) int {
+	switch e.Kind {
+	case pvcase.KRef:
+		if c, ok := s.ruleCost[e.Name]; ok {
+			if c >= infCost {
+				return infCost
+			}
+			return c + 1
+		}
+		return 0
+	case pvcase.KCh:
+		best := infCost
+		for _, k := range e.Kids {
+			if c := s.cost(k); c < best {
+				best = c
+			}
+		}
+		if len(e.Kids) == 0 {
+			return 0
+		}
+		return best
+	case pvcase.KSeq, pvcase.KAct, pvcase.KLab, pvcase.KPlus:
+		worst := 0
+		for _, k := range e.Kids {
+			if c := s.cost(k); c > worst {
+				worst = c
+			}
+		}
+		return worst
+	case pvcase.KRec:
+		return s.cost(e.Kids[0])
+	}
+	return 0 // leaves, predicates, opt and star (may be skipped)
 }
 
 func (cg *caseGen) newSentence() *sentence {
 	s := &sentence{cg: cg, rules: map[string]*pvcase.Rule{}, handlers: map[string][]*pvcase.Expr{}, maxDepth: 7, maxLen: 40}
+	s.ruleCost = map[string]int{}
+	for _, r := range cg.rules {
+		s.ruleCost[r.Name] = infCost
+	}
+	for changed := true; changed; {
+		changed = false
+		for _, r := range cg.rules {
+			if c := s.cost(r.Expr); c < s.ruleCost[r.Name] {
+				s.ruleCost[r.Name] = c
+				changed = true
+			}
+		}
+	}
 	for _, r := range cg.rules {
 		s.rules[r.Name] = r
 		r.Expr.Walk(func(e *pvcase.Expr) {
@@ -98,7 +150,13 @@ func (s *sentence) gen(e *pvcase.Expr, depth int) {
 		}
 		i := cg.r.IntN(len(e.Kids))
 		if depth >= s.maxDepth {
-			i = len(e.Kids) - 1 // usually the base case
+			// wind down: the alternative with the shortest derivation
+			best := infCost + 1
+			for j, k := range e.Kids {
+				if c := s.cost(k); c < best {
+					best, i = c, j
+				}
+			}
 		} else if s.recBias > 0 && cg.chance(s.recBias) {
 			i = cg.r.IntN((len(e.Kids) + 1) / 2)
 		}
@@ -126,7 +184,7 @@ func (s *sentence) gen(e *pvcase.Expr, depth int) {
 			s.gen(hs[cg.r.IntN(len(hs))].Kids[1], depth+1)
 		}
 	case pvcase.KRef:
-		if r := s.rules[e.Name]; r != nil && depth < s.maxDepth+2 {
+		if r := s.rules[e.Name]; r != nil && depth < s.maxDepth+8 {
 			s.gen(r.Expr, depth+1)
 		}
 	}
@@ -205,13 +263,12 @@ func (cg *caseGen) malformedInput(base []byte) []byte {
 
 // makeInput produces the input of a case and records where it came from.
 func (cg *caseGen) makeInput(start *pvcase.Rule, lr bool, malformedP float64) []byte {
-	st := cg.st
 	if cg.chance(0.04) {
-		st.InputSource["empty"]++
+		cg.inputSrc = "empty"
 		return []byte{}
 	}
 	if cg.chance(0.05) {
-		st.InputSource["random"]++
+		cg.inputSrc = "random"
 		var out []byte
 		for n := cg.r.IntN(8); n > 0; n-- {
 			out = utf8.AppendRune(out, cg.pick(cg.alpha))
@@ -234,16 +291,16 @@ func (cg *caseGen) makeInput(start *pvcase.Rule, lr bool, malformedP float64) []
 		in = utf8.AppendRune(in, cg.pick(cg.alpha))
 	}
 	if cg.chance(malformedP) {
-		st.InputSource["malformed"]++
+		cg.inputSrc = "malformed"
 		return cg.malformedInput(in)
 	}
 	if cg.chance(0.5) {
 		n := cg.r.IntN(3)
 		if n > 0 {
-			st.InputSource["mutated"]++
+			cg.inputSrc = "mutated"
 			return cg.mutate(in, n)
 		}
 	}
-	st.InputSource["sentence"]++
+	cg.inputSrc = "sentence"
 	return in
 }
